@@ -47,6 +47,19 @@ CHECKS = {
                      "alphabet-abstraction argument; schema 8.3.0 only (tokenisation is schema independent)"),
 }
 
+CHECKS["C10"] = dict(engine="E2", cat="model_checking", design="4/C10",
+                     technique="explicit-state exploration of all event histories up to a length bound on the real "
+                               "validator, step-by-step agreement with a reference state machine",
+                     text="All histories of Onset/Offset/Inset markers over 5 name spellings (3 scopes) are replayed on a "
+                          "fresh OnsetValidator (single-marker time points to length 4/5, the full 240-symbol one-or-two-"
+                          "marker alphabet to length 1/2 plus one step); after every transition the flagged marker groups and "
+                          "the open-scope set must equal a reference machine (all 8 open-scope states reached). End to end, "
+                          "files realising all histories to length 2/3 in every realisation (one row, equal-onset rows, "
+                          "Delay-shifted, mixed) must report the same number of temporal errors on rows of the offending "
+                          "time point.",
+                     note="histories longer than the bound; the reference machine is my reading of the statement; "
+                          "state agreement reads the validator's _onsets mapping when it exists")
+
 PENDING_REASON = "check not built yet in this revision (planned in DESIGN.md section 4); not claimed until it is"
 
 
